@@ -126,5 +126,60 @@ func c03ImportedStore(c *Ctx, rng *rand.Rand, length int) error {
 			fail(fmt.Sprintf("imported header at height %d: hash / height / work / cumulative work differ from sha256d(80 bytes), parent+1, floor(2^256/(target+1)), parent.cum+work", r.Height), want, got, "c03-imported-fields")
 		}
 	}
+	return c03LaterStartWithFile(c, nodes, length, out, tip, th)
+}
+
+// c03LaterStartWithFile: a store that was filled over the network only up to the middle of the chain (plus a stale
+// and an orphan header the file does not contain) is stopped and started again with the prepared file configured and
+// the newest checkpoint at the file's tip — the operator switches db.prepared_db on later. Whatever the start-up does
+// with the file, every header stored before must still be there with every field unchanged.
+func c03LaterStartWithFile(c *Ctx, nodes []Node, length int, prepared string, tip *DbRow, th *chainhash.Hash) error {
+	name := fmt.Sprintf("store behind the newest checkpoint restarted with the prepared file (%d headers)", length)
+	ci, err := newChainImpl("c03-behind.db", lib.StackOpts{})
+	if err != nil {
+		return err
+	}
+	for i := 0; i <= length/2; i++ {
+		ci.Op("add " + nodes[i].Hdr.Hex())
+	}
+	ci.Op("add " + nodes[length].Hdr.Hex())   // the stale header (child of length/2)
+	ci.Op("add " + nodes[length+1].Hdr.Hex()) // the orphan
+	before, err := ci.Dump()
+	file := ci.file
+	ci.Close()
+	if err != nil {
+		return err
+	}
+	class, msg := c17Start(file, prepared, []chaincfg.Checkpoint{{Height: int32(tip.Height), Hash: th}})
+	after, err := c17DumpFile(file)
+	if err != nil {
+		return err
+	}
+	by := map[string]*DbRow{}
+	for i := range after {
+		by[after[i].Hash] = &after[i]
+	}
+	c.R.Case(name, true)
+	c.R.Count("later start with the prepared file on a store behind the checkpoint", 1)
+	ops := []string{fmt.Sprintf("# c03 later start: headers 0..%d of a chain of %d (seed %d) plus one stale and one orphan header stored; service stopped; started again on the same database with prepared_db=true, the exported file of the whole chain and the newest checkpoint at its tip (start-up answered %q %s)", length/2, length, c.Seed, class, msg)}
+	gone, changed := 0, 0
+	for i := range before {
+		b := &before[i]
+		c.R.OracleChecked++
+		a, ok := by[b.Hash]
+		if !ok {
+			if gone < 3 {
+				c.R.Fail(lib.Failure{Case: name, Ops: ops, What: "a header stored before the restart has disappeared", Expected: b.String(), Observed: fmt.Sprintf("absent; table had %d rows before, %d after", len(before), len(after)), Signature: "c03-later-start-header-disappeared"})
+			}
+			gone++
+			continue
+		}
+		x, y := *b, *a
+		x.State, y.State, x.ID, y.ID = "", "", 0, 0
+		if x != y && changed < 3 {
+			changed++
+			c.R.Fail(lib.Failure{Case: name, Ops: ops, What: "a field other than the chain-state label of a stored header changed over the restart", Expected: b.String(), Observed: a.String(), Signature: "c03-later-start-field-changed"})
+		}
+	}
 	return nil
 }
